@@ -139,7 +139,7 @@ end
 inductive Spec where
   | jit (f : Fn)
   | remat (f : Fn)
-  | cachedPartial (f : Fn)
+  | cachedPartial (f : Fn) (ncached : Option Nat)
   | switch (fs : List Fn)
   | cond (t f : Fn)
   | fori (f : Fn)
@@ -150,7 +150,9 @@ def specOfJson (j : Json) : Except String Spec := do
   match kind with
   | "jit" => .ok (.jit (← fnOfJson (← get j "fn")))
   | "remat" => .ok (.remat (← fnOfJson (← get j "fn")))
-  | "cached_partial" => .ok (.cachedPartial (← fnOfJson (← get j "fn")))
+  | "cached_partial" =>
+    let nc := match j.getObjVal? "ncached" with | .ok x => (x.getNat?).toOption | .error _ => Option.none
+    .ok (.cachedPartial (← fnOfJson (← get j "fn")) nc)
   | "switch" => .ok (.switch (← asList fnOfJson (← get j "fns")))
   | "cond" => .ok (.cond (← fnOfJson (← get j "t")) (← fnOfJson (← get j "f")))
   | "fori" => .ok (.fori (← fnOfJson (← get j "fn")))
@@ -181,7 +183,7 @@ def callSpec (s : Spec) (c : JitCache) (h : Heap) (args : List PVal) (i : Int) (
   match s with
   | .jit f => jitCached f c h args
   | .remat f => (rematCall f h args, c)
-  | .cachedPartial f => (cachedPartialCall f h args, c)
+  | .cachedPartial f nc => (cachedPartialCall f (nc.getD args.length) h args, c)
   | .switch fs => (switchCall fs i h args, c)
   | .cond t f => (condCall t f (decide (i ≠ 0)) h args, c)
   | .fori f => (foriCall f i n h args, c)
@@ -192,7 +194,7 @@ def callEager (s : Spec) (h : Heap) (args : List PVal) (i : Int) (n : Nat) : Exc
   match s with
   | .jit f => runFn f h args
   | .remat f => runFn f h args
-  | .cachedPartial f => runFn f h args
+  | .cachedPartial f _ => runFn f h args
   | .switch fs =>
     match fs[clampIdx i fs.length]? with
     | some f => runFn f h args
@@ -229,7 +231,8 @@ def handle : Handler := fun fn args =>
   | "remat" => do
       lift (rematCall (← fnOfJson (← argAt args 2)) (← heapOfJson (← argAt args 0)) (← valsOfJson (← argAt args 1)))
   | "cached_partial" => do
-      lift (cachedPartialCall (← fnOfJson (← argAt args 2)) (← heapOfJson (← argAt args 0)) (← valsOfJson (← argAt args 1)))
+      let a ← valsOfJson (← argAt args 1)
+      lift (cachedPartialCall (← fnOfJson (← argAt args 2)) a.length (← heapOfJson (← argAt args 0)) a)
   | "switch" => do
       lift (switchCall (← asList fnOfJson (← argAt args 2)) (← asInt (← argAt args 3)) (← heapOfJson (← argAt args 0))
         (← valsOfJson (← argAt args 1)))
